@@ -6,34 +6,39 @@ fatal-shutdown timer (`InvC`).
 -/
 namespace Kit.Runner
 
-/-- The inner manager performs an `RM` step or does not move, whatever the closer manager does. -/
+/-- Registering one more runner on a manager that is not running keeps the `RM` invariant
+(this is what `RunnerCloserManager.Run` does with the closeCh runner before the inner `Run`). -/
+theorem RM.inv_append_idle {s : RM} (h : RM.Inv s) (hr : s.running = false) :
+    RM.Inv { s with pcs := s.pcs ++ [.idle] } := by
+  obtain ⟨h1, h2, h3, h4, h5, h6, h7, h8, h9, h10⟩ := h
+  constructor <;> grind [RPc.isDelivered, RPc.deliveredReal, RPc.isDone]
+
+/-- The inner manager performs an `RM` step, registers the closeCh runner while not running, or does
+not move, whatever the closer manager does. -/
 theorem RCM.inner_step (cfg : Cfg) {s s' : RCM} (a : Label) (hs : s.step cfg a = some s')
-    (hlow : s.opc.rank < 3 → s.inner.running = false)
-    (hrun : s.running = false → s.opc = .idle) :
-    s'.inner = s.inner ∨ ∃ b, s.inner.step b = some s'.inner := by
+    (hlow : s.opc.rank < 3 → s.inner.running = false) :
+    s'.inner = s.inner ∨ (∃ b, s.inner.step b = some s'.inner) ∨
+      (s.inner.running = false ∧ s'.inner = { s.inner with pcs := s.inner.pcs ++ [.idle] }) := by
   cases a with
   | inner b =>
-    right; refine ⟨b, ?_⟩
+    right; left; refine ⟨b, ?_⟩
     simp only [RCM.step] at hs
     split at hs
     · cases hb : s.inner.step b with
       | none => simp [hb] at hs
       | some r => simp [hb] at hs; subst hs; rfl
     · simp at hs
-  | add k ok =>
-    cases ok with
-    | false => left; grind [RCM.step]
-    | true =>
-      right; refine ⟨.add k true, ?_⟩
-      simp only [RCM.step] at hs
-      grind [RM.step, OPc.rank]
-  | prepare =>
-    by_cases hl : s.inner.pcs.length > 0
-    · right; refine ⟨.add 1 true, ?_⟩
-      simp only [RCM.step] at hs
-      grind [RM.step, OPc.rank, List.replicate]
+  | addOuterCheck k =>
+    by_cases hr : s.running = true
     · left; grind [RCM.step]
-  | launch => right; exact ⟨.runCall, by grind [RCM.step, RM.step]⟩
+    · right; left; exact ⟨.addCall k, by grind [RCM.step, RM.step]⟩
+  | prepare =>
+    by_cases hl : Kit.Generated.C12.closeRunnerMinRunners ≤ s.inner.pcs.length
+    · right; right
+      simp only [RCM.step] at hs
+      grind [OPc.rank]
+    · left; grind [RCM.step]
+  | launch => right; left; exact ⟨.runCall, by grind [RCM.step, RM.step]⟩
   | _ => left; grind [RCM.step]
 
 /-- Life cycle of the closer manager and its link to the inner manager. -/
@@ -58,12 +63,14 @@ theorem RCM.invA_step (cfg : Cfg) {s s' : RCM} (a : Label) (h : RCM.InvA s)
     (hs : s.step cfg a = some s') : RCM.InvA s' := by
   have hin : RM.Inv s'.inner ∧ (s.inner.runPc = .finished → s'.inner.runPc = .finished ∧ s'.inner.errs = s.inner.errs)
       ∧ (s.inner.running = true → s'.inner.pcs.length = s.inner.pcs.length) := by
-    rcases RCM.inner_step cfg a hs (fun hl => (h.inner_low hl).2.2)
-      (fun hr => by have := h.run_iff; grind) with he | ⟨b, hb⟩
+    rcases RCM.inner_step cfg a hs (fun hl => (h.inner_low hl).2.2) with he | ⟨b, hb⟩ | ⟨hnr, he⟩
     · rw [he]; exact ⟨h.inner, fun hf => ⟨hf, rfl⟩, fun _ => rfl⟩
     · exact ⟨RM.inv_step b h.inner hb, fun hf => by
         have := RM.step_finished b h.inner hb hf; exact ⟨this.1, this.2.1⟩,
         fun hr => RM.step_length b hb hr⟩
+    · rw [he]
+      exact ⟨RM.inv_append_idle h.inner hnr, fun hf => by
+        have := h.inner.running_iff; simp [hf, hnr] at this, fun hr => by simp [hnr] at hr⟩
   obtain ⟨hin1, hin2, hin3⟩ := hin
   obtain ⟨h0, h1, h2, h3, h4, h5, h6, h7, h8, h9, h10⟩ := h
   have hri := h0.running_iff
